@@ -439,6 +439,11 @@ func (fs *propSet) buildValue(prop *property, create bool) (Field, bool, error) 
 		if !walkMessage.Has(finalField) {
 			return nil, false, nil
 		}
+	} else if oneof := finalField.ContainingOneof(); oneof != nil && !oneof.IsSynthetic() {
+		// Setting a second member of a proto oneof silently discards the first.
+		if other := walkMessage.WhichOneof(oneof); other != nil && other.Number() != finalField.Number() {
+			return nil, false, fmt.Errorf("field %s can not be set, %s is already set in oneof %s", prop.schema.JSONName, other.JSONName(), oneof.Name())
+		}
 	}
 	fieldContext.walkedProtoPath = append(fieldContext.walkedProtoPath, finalField.JSONName())
 
